@@ -12,7 +12,7 @@ import impl
 import reports
 
 PROP_FILES = ["theories/Props/C03.v", "theories/Inst/C03_inst.v"]
-DEPS = ["theories/Proofs/C03_proofs.vo", "theories/Gen/Constants.vo", "theories/Gen/CliTable.vo",
+DEPS = ["theories/Proofs/C03_proofs.vo", "theories/Proofs/C03b_proofs.vo", "theories/Gen/IssueFields.vo", "theories/Gen/Constants.vo", "theories/Gen/CliTable.vo",
         "theories/Gen/Ladders.vo", "theories/Gen/Registry.vo"]
 RANKS = ["UNDEFINED", "LOW", "MEDIUM", "HIGH"]
 SEV_SPELL = {0: [[], ["--severity-level", "all"]], 1: [["-l"], ["--severity-level", "low"], ["--level"]],
@@ -225,6 +225,59 @@ def system_cases(R, rng, tier):
                                  "observed": "", "signature": None})
 
 
+def baseline_unit(R, rng, tier):
+    """results_count / get_issue_list under a baseline on synthetic result lists and baselines (multisets of identities, all
+    thresholds, exit-zero) vs the model's exit_status_b; and the statement: the count is the number of listed findings."""
+    import itertools as it
+    idents = [("B101", "LOW", "HIGH"), ("B102", "MEDIUM", "MEDIUM"), ("B602", "HIGH", "LOW"), ("B101", "LOW", "MEDIUM")]
+
+    def mk(k, line):
+        from bandit.core import issue
+        tid, sev, conf = idents[k]
+        i = issue.Issue(severity=sev, confidence=conf, text="text-%s" % tid, test_id=tid, lineno=line)
+        i.fname, i.test, i.linerange = "f.py", "t_" + tid, [line]
+        return i
+
+    def bcoq(i):
+        return "(%s, %s)" % (L.pstr(i.fname), finding_coq(i))
+    multisets = [c for n in range(0, 4) for c in it.combinations_with_replacement(range(len(idents)), n)]
+    pairs = list(it.product(multisets, multisets))
+    pairs = rng.sample(pairs, 60 if tier == "quick" else 900)
+    cases, meta = [], []
+    for base_ms, cur_ms in pairs:
+        base = [mk(k, 100 + j) for j, k in enumerate(base_ms)]
+        cur = [mk(k, 1 + j) for j, k in enumerate(cur_ms)]
+        for st, ct in (list(it.product(RANKS, RANKS)) if tier != "quick" else rng.sample(list(it.product(RANKS, RANKS)), 4)):
+            mgr = impl.make_manager()
+            mgr.results = list(cur)
+            mgr.baseline = list(base)
+            lst = mgr.get_issue_list(sev_level=st, conf_level=ct)
+            cnt = mgr.results_count(sev_filter=st, conf_filter=ct)
+            listed = list(lst)
+            inp = {"baseline": [idents[k] for k in base_ms], "results": [idents[k] for k in cur_ms], "sev": st, "conf": ct}
+            R.case(("bunit", base_ms, cur_ms, st, ct), nontrivial=bool(base_ms) and bool(cur_ms), sample=dict(inp, listed=len(listed), count=cnt))
+            R.count("baseline-unit")
+            if cnt != len(listed):
+                R.violations.append({"what": "results_count is %d but get_issue_list lists %d findings under a baseline (the exit status is decided on the count, the report written from the list)" % (cnt, len(listed)),
+                                     "input": inp, "observed": {"count": cnt, "listed": len(listed)}, "signature": None})
+            for ez in (False, True):
+                code = 1 if (cnt > 0 and not ez) else 0
+                cases.append(("(%s, %s, %s, %s, %s)" % (L.pstr(st), L.pstr(ct), L.B(ez), L.lst([bcoq(i) for i in base], "bissue"), L.lst([bcoq(i) for i in cur], "bissue")),
+                              "(Exit %s, %s)" % (L.Z(code), L.lst([bcoq(i) for i in listed], "bissue"))))
+                meta.append(dict(inp, exit_zero=ez))
+    imports = "From Bandit Require Import Cli.Thresholds Cli.ExitBaseline Manager.BaselineFilter Gen.Constants Gen.IssueFields.\n"
+    extra = ("Definition beq (a b : bissue) := pstr_eqb (fst a) (fst b) && finding_eqb (snd a) (snd b).\n"
+             "Definition outb (x : outcome * report) : outcome * list bissue := (fst x, listed (snd x)).\n"
+             "Definition outb_eqb (a b : outcome * list bissue) : bool :=\n"
+             "  match fst a, fst b with Exit x, Exit y => Z.eqb x y | _, _ => false end && list_eqb beq (snd a) (snd b).\n")
+    mm, br = core.unit_corr(imports, "fun x => match x with (s, c, ez, bl, rs) => outb (exit_status_b (issue_eqb_on MATCH_TYPES) (thr_of RANKING s c) ez bl rs) end",
+                            "pstr * pstr * bool * list bissue * list bissue", "outcome * list bissue", "outb_eqb", cases, label="c03b", extra_defs=extra)
+    R.broken.extend(br)
+    for i, tail in mm[:10]:
+        R.broken.append({"what": "correspondence: exit_status_b model vs results_count/get_issue_list under a baseline differ",
+                         "input": meta[i], "implementation": cases[i][1][:400], "model_output_excerpt": tail[:600]})
+
+
 def baseline_cases(R, rng, tier):
     """With -b the report lists the findings the baseline does not account for; the exit status is decided on that same
     list: 1 exactly when the report lists a finding (at the thresholds in force), for the formats that support a baseline."""
@@ -282,5 +335,6 @@ def run(R, replay=None):
               "non-trivial = the finding list is non-empty")
     unit_cases(R, rng, R.tier)
     system_cases(R, rng, R.tier)
+    baseline_unit(R, rng, R.tier)
     baseline_cases(R, rng, R.tier)
     R.disagreements_checked = R.evaluations
